@@ -4,4 +4,6 @@ CHECKS = {
             "deadline_s": {"quick": 240, "thorough": 3000}},
     "C01": {"pkg": "c01", "deps": ["kit"], "level": "model_checking", "closure": [["modeltrans", "model_reachable_trans"]],
             "deadline_s": {"quick": 300, "thorough": 3000}},
+    "C04": {"pkg": "c04", "deps": [], "level": "model_checking",
+            "deadline_s": {"quick": 300, "thorough": 3000}},
 }
